@@ -298,6 +298,13 @@ async fn network_connect(options: &MqttOptions) -> Result<Network, ConnectionErr
         }
     }
 
+    // verification hook: use the injected in-memory transport when one is installed
+    #[cfg(feature = "verif-hooks")]
+    if let Some(stream) = crate::verif::connect().await {
+        let network = Network::new(stream?, max_incoming_pkt_size);
+        return Ok(network);
+    }
+
     // Process Unix files early, as proxy is not supported for them.
     #[cfg(unix)]
     if matches!(options.transport(), Transport::Unix) {
